@@ -250,6 +250,17 @@ def generate(ctx):
         p = rng.choice([0, 0, 0, 0, 0, 0, 1, 1, 2, 4, 8])
         cases.append(dict(stream="zero-random" if zero_ok else "random",
                           top=rand_agg(rng, nm, 1, p, False, zero_ok, packed_kw=(p == 1 and rng.random() < 0.5))))
+    for c in cases:
+        if c["stream"] in ("random", "directed"):
+            add_mentions(rng, c["top"], 0.25)
+    # the options of the DEFINING cdef() apply, whatever an earlier cdef() that mentioned the tag said
+    for kind in ("fwd", "typedef", "ptr"):
+        for pdef, pmen, kwd in ((1, 0, True), (0, 1, True), (2, 0, False), (0, 2, False), (4, 1, False), (1, 8, False)):
+            nm = Namer()
+            n = agg(False, pdef, [fld(nm(), prim("char")), fld(nm(), prim("int")), fld(nm(), prim("short")),
+                                  fld(nm(), prim("long"))], packed_kw=(kwd and pdef == 1))
+            n["mention"] = dict(kind=kind, pack=pmen, packed_kw=(kwd and pmen == 1))
+            cases.append(dict(stream="directed", top=n))
     # other conventions (model tie only): MSVC, ARM, big endian, packed with bit-fields, pack=N with bit-fields
     ALTS = [(0x41, 0), (0x42, 0), (0x14, 0), (0x58, 0), (0x00, 2), (0x01, 4), (0x44, 0), (0x08, 0)]
     for c in cases:
@@ -306,6 +317,27 @@ def type_string(t):
     return (t["c"] if t["k"] == "prim" else kw(t) + " " + t["tag"]) + dims
 
 
+def mention_src(node):
+    """an earlier declaration that only MENTIONS the tag (given to its own cdef() call, with other packing options)"""
+    k, T = node["mention"]["kind"], "%s %s" % (kw(node), node["tag"])
+    if k == "fwd":
+        return T + ";"
+    if k == "typedef":
+        return "typedef %s %s_t;" % (T, node["tag"])
+    return "struct %s_m { %s *p; int q; };" % (node["tag"], T)
+
+
+def add_mentions(rng, top, prob):
+    """spread the declarations of a case over several cdef() calls with different packed=/pack= options: some tags
+    are first mentioned (forward declaration / typedef / pointer field) in a call whose options differ from those
+    of the call that defines them"""
+    for n in agg_nodes(top):
+        if rng.random() < prob:
+            p = rng.choice([x for x in (0, 1, 1, 2, 4, 8) if x != n["pack"]])
+            n["mention"] = dict(kind=rng.choice(["fwd", "typedef", "ptr"]), pack=p,
+                                packed_kw=(p == 1 and rng.random() < 0.5))
+
+
 def assign_tags(case, prefix):
     nodes = agg_nodes(case["top"])
     for i, n in enumerate(nodes):
@@ -335,7 +367,8 @@ def coq_type(node, prims):
     fs = "WNil"
     for f in reversed(node["fields"]):
         fs = "(WCons %s %s (%d) %s)" % ("true" if f["name"] else "false", coq_type(f["t"], prims), f["bits"], fs)
-    return "(WAgg %s %d %s)" % ("true" if node["u"] else "false", node["pack"], fs)
+    mention = node["mention"]["pack"] if node.get("mention") else -1
+    return "(WAgg %s %d (%d) %s)" % ("true" if node["u"] else "false", node["pack"], mention, fs)
 
 
 def coq_obs(size, align, rows):
@@ -362,7 +395,8 @@ def gcc_probe(ctx, views, tag):
             if node["case_id"] in dead:
                 continue
             p = node["pack"]
-            text = ("#pragma pack(push, %d)\n" % p if p else "") + \
+            text = (mention_src(node) + "\n" if node.get("mention") else "") + \
+                ("#pragma pack(push, %d)\n" % p if p else "") + \
                 "%s %s %s;" % (kw(node), node["tag"], body(node)) + ("\n#pragma pack(pop)" if p else "")
             start = sum(l.count("\n") + 1 for l in lines) + 1
             lines.append(text)
@@ -492,7 +526,8 @@ def evaluate_batch(ctx, cases, btag, acc):
             continue
         decls, vs = [], []
         for n in agg_nodes(c["top"]):
-            decls.append(dict(src="%s %s %s;" % (kw(n), n["tag"], body(n)), pack=n["pack"], packed_kw=n["packed_kw"]))
+            decls.append(dict(src="%s %s %s;" % (kw(n), n["tag"], body(n)), pack=n["pack"], packed_kw=n["packed_kw"],
+                              mention=dict(n["mention"], src=mention_src(n)) if n.get("mention") else None))
             vs.append(dict(T="%s %s" % (kw(n), n["tag"]), tag=n["tag"],
                            fields=[dict(name=nm_, bits=bits, unsigned=(cn in UNSIGNED), bool=(cn == "_Bool"))
                                    for nm_, bits, cn in flat_fields(n)]))
@@ -524,7 +559,7 @@ def evaluate_batch(ctx, cases, btag, acc):
         ctx.count()
         ctx.hist("alt_sflags", "0x%02x pack=%d%s" % (c["alt"][0], c["alt"][1], " rejected" if r.get("error") else ""))
         impl = "WNone" if r.get("error") else coq_obs(r["size"], r["align"], [f[1:5] for f in r["fields"]])
-        top = dict(c["top"], pack=c["alt"][0] * 65536 + c["alt"][1])
+        top = dict(c["top"], pack=c["alt"][0] * 65536 + c["alt"][1], mention=None)
         acc["alt_cases"].append((coq_type(top, cprims), impl))
         acc["alt_owner"].append(dict(stream=c["stream"], alt=c["alt"], top=strip(c["top"])))
     for vid, n in views:
@@ -648,6 +683,7 @@ def strip(node):
     if node["k"] == "arr":
         return dict(k="arr", item=strip(node["item"]), n=node["n"])
     return dict(k="agg", u=node["u"], pack=node["pack"], inline=node["inline"], packed_kw=node["packed_kw"],
+                mention=node.get("mention"),
                 fields=[dict(name=f["name"], t=strip(f["t"]), bits=f["bits"]) for f in node["fields"]])
 
 
@@ -700,6 +736,62 @@ def fingerprint_changed(ctx):
         h = "not-found"
     ctx.extra["source_fingerprint"] = dict(now=h, recorded=FINGERPRINT)
     return h != FINGERPRINT
+
+
+GEN = "C01/Gen.v"
+GEN_TEXT = """(* C01 — REGENERATED on every run by tools/props/c01.py regen() from /repo/src/cffi/cparser.py
+   (Parser._get_struct_union_enum_type, via ast; fail closed -> this committed snapshot).
+   Fact extracted: where `tp.packed = self._options.get('packed')` stands relative to the parse
+   of the `{...}` body (`for decl in type.decls`):
+     true  = a top-level statement of the function AFTER that loop: the packed=/pack= options of
+             the cdef() call that DEFINES the struct/union apply;
+     false = anywhere else (e.g. where the model type object is first created): the options of
+             the cdef() that first MENTIONS the tag would apply. *)
+Definition packed_from_defining_cdef : bool := %s.
+"""
+
+
+def packed_fact():
+    """-> True/False, or raises ValueError when the function no longer has the recorded shape"""
+    import ast
+    tree = ast.parse(open(os.path.join(vlib.REPO, "src/cffi/cparser.py")).read())
+    fns = [f for c in ast.walk(tree) if isinstance(c, ast.ClassDef) and c.name == "Parser"
+           for f in c.body if isinstance(f, ast.FunctionDef) and f.name == "_get_struct_union_enum_type"]
+    if len(fns) != 1:
+        raise ValueError("Parser._get_struct_union_enum_type not found")
+    fn = fns[0]
+
+    def is_packed_assign(st):
+        return (isinstance(st, ast.Assign) and len(st.targets) == 1 and isinstance(st.targets[0], ast.Attribute)
+                and st.targets[0].attr == "packed" and isinstance(st.targets[0].value, ast.Name)
+                and st.targets[0].value.id == "tp")
+    everywhere = [st for st in ast.walk(fn) if is_packed_assign(st)]
+    if len(everywhere) != 1:
+        raise ValueError("%d assignments to tp.packed" % len(everywhere))
+    if ast.unparse(everywhere[0].value) != "self._options.get('packed')":
+        raise ValueError("tp.packed assigned from " + ast.unparse(everywhere[0].value))
+    loops = [i for i, st in enumerate(fn.body) if isinstance(st, ast.For) and ast.unparse(st.iter) == "type.decls"]
+    if len(loops) != 1:
+        raise ValueError("body-parsing loop not found")
+    top = [i for i, st in enumerate(fn.body) if is_packed_assign(st)]
+    return bool(top) and top[0] > loops[0]
+
+
+def regen(ctx):
+    path = os.path.join(vlib.COQ, GEN)
+    old = open(path).read() if os.path.exists(path) else None
+    try:
+        text = GEN_TEXT % ("true" if packed_fact() else "false")
+    except Exception as e:     # fail closed: keep the committed snapshot, the correspondence carries the run
+        ctx.translator(GEN, "fallback: %s" % e)
+        return
+    if text != old:
+        with vlib.CoqLock():
+            with open(path, "w") as f:
+                f.write(text)
+        ctx.translator(GEN, "regenerated")
+    else:
+        ctx.translator(GEN, "unchanged")
 
 
 def run(ctx):
